@@ -30,9 +30,9 @@ EXPLANATION = __doc__
 
 def run(ctx: RuleContext):
     r = roles_for(ctx.model)
-    check_guard(ctx, r)
-    check_parser(ctx)
-    check_wiring(ctx, r)
+    ctx.sub(check_guard, ctx, r)
+    ctx.sub(check_parser, ctx)
+    ctx.sub(check_wiring, ctx, r)
 
 
 def new_style_wrappers(m, r) -> list:
